@@ -50,6 +50,8 @@ TARGETS = {
     "core": (["core_harness.cpp"], CORE_SRC, False, BASE_LIBS),
     "c14": (["c14_harness.cpp"], CORE_SRC, False, BASE_LIBS),
     "server": ([], SERVER_SRC, True, BOOST_LIBS + CAPNP_LIBS + BASE_LIBS),
+    # the real server WITH the yield-point hooks (harness/c14_server_hook.cpp holds a request inside its calculation): C14's HTTP leg only
+    "server-hooked": (["c14_server_hook.cpp"], SERVER_SRC, True, BOOST_LIBS + CAPNP_LIBS + BASE_LIBS),
     "cachegen": (["cachegen.cpp"], [], True, CAPNP_LIBS + BASE_LIBS),
     "decode": (["decode.cpp"], [], True, CAPNP_LIBS + BASE_LIBS),
     "loader": (["loader_harness.cpp"], CORE_SRC + FETCH_SRC, True, CAPNP_LIBS + BASE_LIBS),
@@ -60,7 +62,7 @@ TARGETS = {
 # hooks of DESIGN.md section 8 expand to nothing, and nothing has to supply trrouting_verif_point); cachegen uses no repo code
 NO_GUARD = {"server", "cachegen", "decode"}
 
-SETUP_TARGETS = [("core", "asan"), ("server", "asan"), ("cachegen", "plain"), ("decode", "plain"), ("loader", "asan"), ("c14", "asan"), ("c14", "tsan")]
+SETUP_TARGETS = [("core", "asan"), ("server", "asan"), ("cachegen", "plain"), ("decode", "plain"), ("loader", "asan"), ("c14", "asan"), ("c14", "tsan"), ("server-hooked", "asan")]
 
 
 class BuildError(Exception):
